@@ -249,6 +249,40 @@ def run(chk, build):
         why = oracle(out, policy, None)
         if why:
             oracle_failed |= chk.fail("oracle", {"samples": s, "policy": policy}, why)
+    # ---- incremental use: merge_models called AGAIN on a registry that was merged before and then received more data.
+    # The relation is the same one: the models registered before the second call (merged ones with the union of their
+    # members' keys) end up in one class iff connected by comparator-satisfying pairs on THOSE key sets.
+    from json_to_models.generator import MetadataGenerator
+    from json_to_models.registry import ModelRegistry
+    gi = gen.Gen(chk.seed * 1000003 + 55)
+    for i in range(60 if tier == "quick" else 3000):
+        policy = gi.r.choice([None, None, [("number", 2)], [("percent", 0.5)], [("number", 4)]])
+        rounds = [gi.family() if gi.r.random() < 0.5 else gi.variants() if gi.r.random() < 0.5 else gi.samples(depth=3) for _ in range(gi.r.randint(2, 3))]
+        info = {"rounds": rounds, "policy": policy, "stage": "incremental"}
+        chk.count(key=("incremental", repr(rounds), repr(policy)), sample=info if i == 0 else None)
+        try:
+            with common.time_limit(20):
+                G = MetadataGenerator(impl.make_registry(RN3))
+                reg = ModelRegistry(*impl.make_cmp(policy))
+                why = None
+                for j, s in enumerate(rounds):
+                    reg.process_meta_data(G.generate(*copy.deepcopy(s)), f"Root{j}")
+                    pre = {m.index: list(m.type.keys()) for m in reg.models}
+                    reps = reg.merge_models(G)
+                    pol = policy or [("percent", 0.7), ("number", 10)]
+                    want = components(sorted(pre), lambda a, b: spec_cmp(pol, pre[a], pre[b]))
+                    got = sorted(sorted(x.index for x in grp) for _, grp in reps)
+                    if want != got:
+                        why = f"call {j + 1} of merge_models: groups {got} differ from the connected components {want} of the models registered before it"
+                        break
+        except TimeoutError:
+            continue
+        except ZeroDivisionError:
+            continue
+        except Exception as e:  # noqa
+            why = f"incremental merge raises {type(e).__name__}: {e}"
+        if why:
+            oracle_failed |= chk.fail("oracle", info, why)
     tot, bad, errs = common.eval_cases("Vregistry", terms, chk.workdir, shard=100)
     chk.views["X-registry"] = {"cases": tot, "disagreements": len(bad), "errors": errs[:2], "all_graphs_up_to": kmax}
     disagreements += [dict(meta[b], view="Vregistry") for b in bad[:5]]
